@@ -99,10 +99,15 @@ def r13_8(ctx: Ctx) -> None:
         for c in opens:
             a = c.args[0]
             srcs = [a] + list(q.sources_of(init, a, depth=2))
-            ok = any(isinstance(x, ast.Call) and (dotted(x.func) in ("os.path.abspath", "os.path.realpath") or attr_tail(x) in ("resolve", "absolute")) for e in srcs for x in ast.walk(e))
+            # absolute WITHOUT textual normalisation: joined to the working directory (abspath/normpath would collapse 'link/..' and name another file)
+            joined = any(isinstance(x, ast.Call) and dotted(x.func) == "os.path.join" and x.args and isinstance(x.args[0], ast.Call) and dotted(x.args[0].func) in ("os.getcwd", "os.getcwdb")
+                         for e in srcs for x in ast.walk(e)) or any(isinstance(x, ast.Call) and attr_tail(x) in ("absolute",) for e in srcs for x in ast.walk(e))
+            collapsing = any(isinstance(x, ast.Call) and dotted(x.func) in ("os.path.abspath", "os.path.normpath") for e in srcs for x in ast.walk(e))
+            ok = joined and not collapsing
             ctx.check(ok, "R13.8", init, c, "the archive is opened by an absolute path (tasks re-open it by the handle's name)",
                       f"the constructor opens the archive as `{norm(c)}` and the folder tasks re-open it by `fp.name`: a relative name is resolved again at extraction time, so after "
-                      "os.chdir() the parallel path fails with FileNotFoundError or decodes another file of the same name, while the sequential path extracts correctly",
+                      "os.chdir() the parallel path fails with FileNotFoundError or decodes another file of the same name, while the sequential path extracts correctly "
+                      "(and os.path.abspath/normpath collapse 'link/..' textually: another file is opened or created behind a symbolic link)",
                       construct="archive opened by relative name")
 
 
